@@ -256,6 +256,23 @@ def _run_pit(res, p, selftest):
             if wbad:
                 _viol(res, dict(base, masks=model_masks([]), observable='weight_gradient', key=f'{label}|weight_gradient'), f'{label}: weights {wbad} receive a gradient from the cost', selftest)
         res.sample({'program': pitlib.prog_id(spec), 'cost_terms': {m_: str(z3.simplify(out[m_][0]))[:200] if st.is_sym(out[m_][0]) else out[m_][0] for m_ in list(out)[:2]}})
+        # concolic validation: cost value and gradient of the engine (symbolic terms evaluated in a model) against real torch autograd
+        mm, _ = pitlib.grid_model(ex, sy, [u >= Fraction(1, 4) for s2 in sy.values() for u in s2.elems()], den=8, bound=2)
+        if mm is not None:
+            masks = pitlib.values_of(mm, sy)
+            for metric in list(out)[:2]:
+                c, grads, guards = out[metric]
+                cc, cg, no_w = concrete_pit_grad(spec, wseed, jsonable(masks), metric)
+                ce = float(st.model_value(mm, c)) if st.is_sym(c) else float(c)
+                ok = abs(ce - cc) <= 1e-4 * max(1.0, abs(cc))
+                for qn in sy:
+                    if grads[qn] is not None and cg.get(qn) is not None:
+                        ge = [float(st.model_value(mm, g_)) if st.is_sym(g_) else float(g_) for g_ in grads[qn]]
+                        ok = ok and all(abs(a - b) <= 1e-3 * max(1.0, abs(b)) for a, b in zip(ge, np.array(cg[qn]).reshape(-1)))
+                if ok:
+                    res.validated += 1
+                else:
+                    res.errors.append(f'concolic mismatch {pitlib.prog_id(spec)}:{metric}: engine cost {ce} torch {cc}; torch grads {cg}')
     res.absorb(ex)
 
     # per-coordinate monotonicity of the continuous cost: cost(m + delta e_k) >= cost(m)
